@@ -1,4 +1,5 @@
 import ColoVerif.Model.IncrNet
+import ColoVerif.Model.HpwlChecked
 import ColoVerif.Gen.OrientTables
 import Driver.CircuitIO
 /-
@@ -9,6 +10,7 @@ Driver for C09.
   orient <cell> <o>                      -> (nothing)          cellOrientation_[cell] = o
   move <cell> <x> <y>                    -> (nothing)          cellX_[cell] = x, cellY_[cell] = y
   hpwl                                   -> hpwl <v>           Circuit::hpwl()
+  hpwlc                                  -> hpwlc ok <v> | hpwlc fault   checked twin: would the C++ int / long long arithmetic overflow?
   offs                                   -> offs <xo yo>*      pinXOffset/pinYOffset of every pin, net order (hand-written model)
   goffs                                  -> offs <xo yo>*      same through the *generated* Gen.pinXOffset/pinYOffset
   placed                                 -> placed <w h>*      placedWidth/placedHeight of every cell (generated)
@@ -63,6 +65,10 @@ def step (s : St) (ws : List String) : St × List String :=
   | ["orient", i, o] => ({ s with circ := modCell s.circ (natOf i) fun cl => { cl with orient := Orient.ofCode (natOf o) } }, [])
   | ["move", i, x, y] => ({ s with circ := modCell s.circ (natOf i) fun cl => { cl with x := int! x, y := int! y } }, [])
   | ["hpwl"] => (s, [s!"hpwl {s.circ.hpwl}"])
+  | ["hpwlc"] =>
+    (s, [match Checked.hpwlC s.circ with
+         | .ok v => s!"hpwlc ok {v}"
+         | .error _ => "hpwlc fault"])
   | ["offs"] =>
     (s, ["offs" ++ String.join ((allPinsOf s.circ).map fun p =>
       s!" {Circuit.pinXOffset (s.circ.cell p.cell) p} {Circuit.pinYOffset (s.circ.cell p.cell) p}")])
